@@ -6,6 +6,8 @@ import sys
 from . import runner
 
 CONTRACTS = {
+    'C02': 'contracts.c02',
+    'C03': 'contracts.c03',
     'C04': 'contracts.c04',
     'C05': 'contracts.c05',
     'C13': 'contracts.c13',
